@@ -44,7 +44,9 @@ type spec struct {
 	pkg, recv, fn, lean string
 	drop                []string            // parameters that are not translated (sdk.Context); any use is an error
 	skip                []string            // source prefixes of statements declared effect-only (replaced by a comment)
-	flat                map[string][]string // struct-typed parameter -> its fields, each becomes a parameter `p_Field`
+	flat                map[string][]string // struct-typed parameter / read variable -> its fields, each becomes a parameter `p_Field`
+	reads               []string            // source prefixes of calls that READ state (`x, found := k.GetX(ctx, id)`): the statement
+	//                                         is dropped and the variables it defines become parameters of the Lean function
 }
 
 var specs = []spec{
@@ -57,6 +59,18 @@ var specs = []spec{
 	{pkg: "x/market/keeper", recv: "Keeper", fn: "CalculateTwa", lean: "calculateTwa", drop: []string{"ctx"},
 		skip: []string{"ctx.EventManager().EmitEvents("}, flat: map[string][]string{"twa": {"Twa", "PriceValue"}}},
 	{pkg: "x/auction/keeper", fn: "Multiply", lean: "auctionMultiply"},
+	{pkg: "x/lend/keeper", recv: "Keeper", fn: "GetUtilisationRatioByPoolIDAndAssetID", lean: "lendUtilisationRatio",
+		drop: []string{"ctx", "poolID", "assetID"}, reads: []string{"k.GetPool(ctx, ", "k.Asset.GetAsset(ctx, ", "k.ModuleBalance(ctx, ",
+			"k.GetAssetStatsByPoolIDAndAssetID(ctx, "},
+		flat: map[string][]string{"pool": {}, "asset": {}, "assetStats": {"TotalBorrowed", "TotalStableBorrowed"}}},
+	{pkg: "x/lend/keeper", recv: "Keeper", fn: "GetBorrowAPRByAssetID", lean: "lendBorrowAPR", drop: []string{"ctx", "poolID", "assetID"},
+		reads: []string{"k.GetAssetRatesParams(ctx, ", "k.GetUtilisationRatioByPoolIDAndAssetID(ctx, "},
+		flat:  map[string][]string{"assetRatesStats": {"UOptimal", "Base", "Slope1", "Slope2", "StableBase", "StableSlope1", "StableSlope2"}}},
+	{pkg: "x/lend/keeper", recv: "Keeper", fn: "GetLendAPRByAssetIDAndPoolID", lean: "lendLendAPR", drop: []string{"ctx", "poolID", "assetID"},
+		reads: []string{"k.GetAssetRatesParams(ctx, ", "k.GetBorrowAPRByAssetID(ctx, ", "k.GetUtilisationRatioByPoolIDAndAssetID(ctx, "},
+		flat:  map[string][]string{"assetRatesStats": {"ReserveFactor"}}},
+	{pkg: "x/vault/keeper", recv: "Keeper", fn: "GetAmountOfOtherToken", lean: "vaultAmountOfOtherToken", drop: []string{"ctx", "id1", "id2"},
+		reads: []string{"k.asset.GetAsset(ctx, "}, flat: map[string][]string{"asset1": {"Decimals"}, "asset2": {"Decimals"}}},
 	{pkg: "x/auction/keeper", recv: "Keeper", fn: "getOutflowTokenInitialPrice", lean: "auctionInitialPrice"},
 	{pkg: "x/auction/keeper", recv: "Keeper", fn: "getOutflowTokenEndPrice", lean: "auctionEndPrice"},
 	{pkg: "x/auction/keeper", recv: "Keeper", fn: "getPriceFromLinearDecreaseFunction", lean: "auctionLinearPrice"},
@@ -107,7 +121,10 @@ func init() {
 		prims[name] = p
 	}
 	// package-level constructors; the sdk names are `var X = sdkmath.Y` aliases (cosmos-sdk types/math.go)
-	for _, c := range []struct{ mathName, sdkName, lean string; m bool }{
+	for _, c := range []struct {
+		mathName, sdkName, lean string
+		m                       bool
+	}{
 		{"LegacyZeroDec", "ZeroDec", "decZero", false}, {"LegacyOneDec", "OneDec", "decOne", false},
 		{"LegacyNewDec", "NewDec", "decNew", false}, {"LegacyNewDecFromInt", "NewDecFromInt", "intToDec", false},
 		{"LegacyMinDec", "MinDec", "decMin", false}, {"LegacyMaxDec", "MaxDec", "decMax", false},
@@ -132,7 +149,7 @@ func leanType(t types.Type) string {
 		return "Dec"
 	case "uint64":
 		return "Nat"
-	case "bool":
+	case "bool", "error": // an error value is represented by "is not nil"
 		return "Bool"
 	}
 	if s, ok := t.(*types.Slice); ok {
@@ -141,6 +158,15 @@ func leanType(t types.Type) string {
 		}
 	}
 	return ""
+}
+
+func isErr(t types.Type) bool { return t != nil && types.Unalias(t).String() == "error" }
+
+// a package-level variable of type error (sdkerrors.Register(...) values: never nil)
+func (t *tr) isErrVar(o types.Object) bool {
+	v, ok := o.(*types.Var)
+	return ok && !v.IsField() && v.Pkg() != nil && v.Parent() == v.Pkg().Scope() &&
+		(isErr(v.Type()) || types.Unalias(v.Type()).String() == "*cosmossdk.io/errors.Error")
 }
 
 func isU64(t types.Type) bool { return types.Unalias(t).String() == "uint64" }
@@ -189,7 +215,10 @@ type tr struct {
 	unset   map[types.Object]bool              // nil-zero variables that are not definitely assigned yet
 	results []*types.Var                       // named results
 	nres    int
+	sig     *types.Signature
 	inClos  bool
+	inLoop  int
+	extra   []string          // parameters created by `reads`
 	fns     map[string]string // FullName of a translated function -> Lean name
 }
 
@@ -276,8 +305,17 @@ func (t *tr) expr(e ast.Expr) string {
 			}
 			return t.name(v)
 		}
+		if _, isNil := t.info.Uses[e].(*types.Nil); isNil && isErr(t.info.TypeOf(e)) {
+			return "false"
+		}
+		if t.isErrVar(t.info.Uses[e]) {
+			return "true"
+		}
 		t.fail(e, "identifier %s (%T)", e.Name, t.info.Uses[e])
 	case *ast.SelectorExpr:
+		if t.isErrVar(t.info.Uses[e.Sel]) {
+			return "true"
+		}
 		if v := t.local(e.X); v != nil && t.flat[v] != nil {
 			if n, ok := t.flat[v][e.Sel.Name]; ok {
 				return n
@@ -349,6 +387,9 @@ func (t *tr) cond(e ast.Expr) string {
 			return paren(x) + map[token.Token]string{token.LAND: " ∧ ", token.LOR: " ∨ "}[e.Op] + paren(y)
 		case token.EQL, token.NEQ, token.LSS, token.LEQ, token.GTR, token.GEQ:
 			ty := t.info.TypeOf(e.X)
+			if isErr(ty) && t.src(e.Y) == "nil" && (e.Op == token.EQL || e.Op == token.NEQ) {
+				return paren(t.expr(e.X)) + " = " + map[token.Token]string{token.NEQ: "true", token.EQL: "false"}[e.Op]
+			}
 			if !(isU64(ty) || isI64(ty) || leanType(ty) == "Bool") {
 				t.fail(e, "comparison %s on %s", e.Op, ty)
 			}
@@ -575,7 +616,90 @@ func (t *tr) lhs(e ast.Expr) (string, types.Object) {
 	return "", nil
 }
 
+// `x, found := k.GetX(ctx, id)` with the call declared a state read: the defined variables become parameters
+func (t *tr) read(ind int, s *ast.AssignStmt) bool {
+	if len(s.Rhs) != 1 || (s.Tok != token.DEFINE && s.Tok != token.ASSIGN) {
+		return false
+	}
+	text, hit := t.src(s.Rhs[0]), false
+	for _, p := range t.sp.reads {
+		hit = hit || strings.HasPrefix(text, p)
+	}
+	if _, isCall := s.Rhs[0].(*ast.CallExpr); !hit || !isCall {
+		return false
+	}
+	if t.inClos || t.inLoop > 0 {
+		t.fail(s, "state read inside a loop or closure")
+	}
+	t.line(ind, "-- state read, its results are parameters: %s", t.src(s))
+	for _, l := range s.Lhs {
+		id, ok := l.(*ast.Ident)
+		if !ok {
+			t.fail(l, "state read into %s", t.src(l))
+		}
+		if id.Name == "_" {
+			continue
+		}
+		if o := t.info.Defs[id]; o != nil { // new variable
+			if fields, isFlat := t.sp.flat[id.Name]; isFlat {
+				t.flatten(ind, o.(*types.Var), fields, s)
+			} else if leanType(o.Type()) == "" {
+				t.dropped[o] = true // of a type that is not translated: any use outside state reads is an error
+			} else {
+				t.extra = append(t.extra, fmt.Sprintf("(%s : %s)", t.name(o), leanType(o.Type())))
+				t.line(ind, "let mut %s := %s", t.name(o), t.name(o))
+			}
+			continue
+		}
+		v := t.local(id) // `:=` / `=` on an existing variable: a fresh parameter is assigned to it
+		if v == nil || leanType(v.Type()) == "" {
+			t.fail(l, "state read into %s", id.Name)
+		}
+		p := t.fresh(id.Name + "_r")
+		t.extra = append(t.extra, fmt.Sprintf("(%s : %s)", p, leanType(v.Type())))
+		t.line(ind, "%s := %s", t.name(v), p)
+		delete(t.unset, v)
+	}
+	return true
+}
+
+func (t *tr) fresh(base string) string {
+	n := base
+	for k := 1; t.used[n]; k++ {
+		n = fmt.Sprintf("%s%d", base, k)
+	}
+	t.used[n] = true
+	return n
+}
+
+// struct-typed variable -> one Lean variable per listed field
+func (t *tr) flatten(ind int, p *types.Var, fields []string, at ast.Node) {
+	st, ok := types.Unalias(p.Type()).Underlying().(*types.Struct)
+	if !ok {
+		t.fail(at, "%s is not a struct", p.Name())
+	}
+	t.flat[p] = map[string]string{}
+	for _, fname := range fields {
+		var fv *types.Var
+		for j := 0; j < st.NumFields(); j++ {
+			if st.Field(j).Name() == fname {
+				fv = st.Field(j)
+			}
+		}
+		if fv == nil || leanType(fv.Type()) == "" {
+			t.fail(at, "field %s.%s", p.Name(), fname)
+		}
+		n := t.fresh(p.Name() + "_" + fname)
+		t.flat[p][fname] = n
+		t.extra = append(t.extra, fmt.Sprintf("(%s : %s)", n, leanType(fv.Type())))
+		t.line(ind, "let mut %s := %s", n, n)
+	}
+}
+
 func (t *tr) assign(ind int, s *ast.AssignStmt) {
+	if t.read(ind, s) {
+		return
+	}
 	def := s.Tok == token.DEFINE
 	if s.Tok != token.DEFINE && s.Tok != token.ASSIGN { // x op= e
 		op, ok := map[token.Token]token.Token{token.ADD_ASSIGN: token.ADD, token.SUB_ASSIGN: token.SUB, token.MUL_ASSIGN: token.MUL,
@@ -815,8 +939,12 @@ func (t *tr) ret(ind int, s *ast.ReturnStmt) {
 			vals = append(vals, t.name(r))
 		}
 	} else if len(s.Results) == t.nres {
-		for _, r := range s.Results {
-			vals = append(vals, t.expr(r))
+		for i, r := range s.Results {
+			if t.src(r) == "nil" && isErr(t.sig.Results().At(i).Type()) {
+				vals = append(vals, "false")
+			} else {
+				vals = append(vals, t.expr(r))
+			}
 		}
 	} else {
 		t.fail(s, "return of a multi-value call")
@@ -891,7 +1019,9 @@ func (t *tr) forStmt(ind int, s *ast.ForStmt) {
 	}
 	t.line(ind, "for %s in GoSem.%s %s %s do", t.name(iv), f, paren(t.expr(init.Rhs[0])), paren(t.expr(cnd.Y)))
 	in := t.snapshot()
+	t.inLoop++
 	t.block(ind+1, s.Body.List)
+	t.inLoop--
 	t.unset = in
 }
 
@@ -917,7 +1047,9 @@ func (t *tr) rangeStmt(ind int, s *ast.RangeStmt) {
 		t.line(ind, "for (%s, %s) in GoSem.enumI %s do", b(s.Key), b(s.Value), t.expr(s.X))
 	}
 	in := t.snapshot()
+	t.inLoop++
 	t.block(ind+1, s.Body.List)
+	t.inLoop--
 	t.unset = in
 }
 
@@ -1043,42 +1175,24 @@ func translate(fset *token.FileSet, pkg *packages.Package, sp spec, fd *ast.Func
 	t := &tr{fset: fset, info: pkg.TypesInfo, sp: sp, out: &bytes.Buffer{}, names: map[types.Object]string{}, used: map[string]bool{},
 		dropped: map[types.Object]bool{}, flat: map[types.Object]map[string]string{}, unset: map[types.Object]bool{}, fns: fns}
 	sig := pkg.TypesInfo.Defs[fd.Name].(*types.Func).Type().(*types.Signature)
+	t.sig = sig
 	if sig.Variadic() || sig.TypeParams() != nil {
 		t.fail(fd, "variadic or generic function")
 	}
 	if r := sig.Recv(); r != nil {
 		t.dropped[r] = true
 	}
-	var params []string
 	for i := 0; i < sig.Params().Len(); i++ {
 		p := sig.Params().At(i)
 		switch {
 		case contains(sp.drop, p.Name()):
 			t.dropped[p] = true
 		case sp.flat[p.Name()] != nil:
-			st, ok := types.Unalias(p.Type()).Underlying().(*types.Struct)
-			if !ok {
-				t.fail(fd, "parameter %s is not a struct", p.Name())
-			}
-			t.flat[p] = map[string]string{}
-			for _, fname := range sp.flat[p.Name()] {
-				var fv *types.Var
-				for j := 0; j < st.NumFields(); j++ {
-					if st.Field(j).Name() == fname {
-						fv = st.Field(j)
-					}
-				}
-				if fv == nil || leanType(fv.Type()) == "" {
-					t.fail(fd, "field %s.%s", p.Name(), fname)
-				}
-				n := p.Name() + "_" + fname
-				t.used[n], t.flat[p][fname] = true, n
-				params = append(params, fmt.Sprintf("(%s : %s)", n, leanType(fv.Type())))
-			}
+			t.flatten(1, p, sp.flat[p.Name()], fd)
 		case leanType(p.Type()) == "":
 			t.fail(fd, "parameter %s of type %s", p.Name(), p.Type())
 		default:
-			params = append(params, fmt.Sprintf("(%s : %s)", t.name(p), leanType(p.Type())))
+			t.extra = append(t.extra, fmt.Sprintf("(%s : %s)", t.name(p), leanType(p.Type())))
 		}
 	}
 	var rts []string
@@ -1104,16 +1218,11 @@ func translate(fset *token.FileSet, pkg *packages.Package, sp spec, fd *ast.Func
 	head := &bytes.Buffer{}
 	fmt.Fprintf(head, "/-- %s:%d-%d  `%s`  sha1 %x -/\n", rel, fset.Position(fd.Pos()).Line, fset.Position(fd.End()).Line,
 		t.src(&ast.FuncDecl{Recv: fd.Recv, Name: fd.Name, Type: fd.Type}), sum)
-	fmt.Fprintf(head, "def %s %s : GoSem.M %s := do\n", sp.lean, strings.Join(params, " "), paren(rt))
-	// parameters the body assigns and flattened fields become mutable copies; named results start at their zero value
+	// parameters the body assigns become mutable copies; named results start at their zero value
 	asg := t.assignedIn(fd.Body)
 	for i := 0; i < sig.Params().Len(); i++ {
 		if p := sig.Params().At(i); asg[p] && !t.dropped[p] && t.flat[p] == nil {
 			t.line(1, "let mut %s := %s", t.name(p), t.name(p))
-		}
-		for _, fname := range sp.flat[sig.Params().At(i).Name()] {
-			n := t.flat[sig.Params().At(i)][fname]
-			t.line(1, "let mut %s := %s", n, n)
 		}
 	}
 	for _, r := range t.results {
@@ -1128,6 +1237,7 @@ func translate(fset *token.FileSet, pkg *packages.Package, sp spec, fd *ast.Func
 		}
 		t.line(1, "return ()")
 	}
+	fmt.Fprintf(head, "def %s %s : GoSem.M %s := do\n", sp.lean, strings.Join(t.extra, " "), paren(rt))
 	return head.String() + t.out.String(), nil
 }
 
